@@ -249,10 +249,19 @@ pub fn run(ctx: &Ctx) -> Report {
     if ctx.phase_enabled("defaults") {
         rep.merge(run_defaults(ctx));
     }
-    if ctx.only.is_none() {
-        for key in ["ctor.rejected_period_zero", "ctor.accepted", "ctor.exercised_with_history", "boundary.huge_period_ctor_calls", "boundary.large_windowed_ctor_calls", "defaults.checked"] {
-            if rep.counters.get(key).copied().unwrap_or(0) == 0 {
-                rep.inconclusive.push(format!("coverage floor missed: {} = 0", key));
+    // coverage floors, per enabled phase (the driver runs the boundary phase in a process of its own)
+    let floors: [(&str, &[&str]); 4] = [
+        ("single", &["ctor.rejected_period_zero", "ctor.accepted", "ctor.exercised_with_history"]),
+        ("multi", &["ctor.accepted"]),
+        ("boundary", &["boundary.huge_period_ctor_calls", "boundary.large_windowed_ctor_calls"]),
+        ("defaults", &["defaults.checked"]),
+    ];
+    for (phase, keys) in floors {
+        if ctx.phase_enabled(phase) {
+            for key in keys {
+                if rep.counters.get(*key).copied().unwrap_or(0) == 0 {
+                    rep.inconclusive.push(format!("coverage floor missed: {} = 0", key));
+                }
             }
         }
     }
